@@ -9,6 +9,7 @@ import (
 	"verifharness/fw"
 
 	"github.com/rulego/streamsql"
+	"github.com/rulego/streamsql/functions"
 	"github.com/rulego/streamsql/logger"
 	"github.com/rulego/streamsql/verifrt/sched"
 	vsync "github.com/rulego/streamsql/verifrt/sync"
@@ -31,6 +32,32 @@ var c18Queries = map[string]string{
 	"global":        "SELECT k, count(*) AS c FROM stream GROUP BY k, GLOBAL WINDOW TRIGGER WHEN count(*) >= 1",
 }
 
+// the same kinds with a user function that panics on v = -1 in the position the kind evaluates per row
+var c18RowPanicQueries = map[string]string{
+	"direct":       "SELECT id, vboom(v) AS e FROM stream",
+	"direct-where": "SELECT id FROM stream WHERE vboom(v) > 0",
+	"analytic":     "SELECT id, vboom(v) AS e, lag(v) AS p FROM stream",
+	"cep":          "SELECT * FROM stream MATCH_RECOGNIZE (ORDER BY ts MEASURES MATCH_NUMBER() AS mn, LAST(id) AS l ONE ROW PER MATCH PATTERN (A) DEFINE A AS vboom(v) > 0)",
+	"counting":     "SELECT count(*) AS c, sum(vboom(v)) AS s FROM stream GROUP BY CountingWindow(1)",
+	"global":       "SELECT k, count(*) AS c, sum(vboom(v)) AS s FROM stream GROUP BY k, GLOBAL WINDOW TRIGGER WHEN count(*) >= 1",
+}
+
+var c18BoomRegistered = false
+
+func c18RegisterBoom() {
+	if c18BoomRegistered {
+		return
+	}
+	c18BoomRegistered = true
+	functions.RegisterCustomFunction("vboom", functions.TypeMath, "verif", "panics on -1", 1, 1, func(ctx *functions.FunctionContext, args []any) (any, error) {
+		x, _ := num(args[0])
+		if x == -1 {
+			panic("vboom: the row's value makes a user function panic")
+		}
+		return x, nil
+	})
+}
+
 var c18KindOrder = []string{"direct", "analytic", "cep", "tumbling-evt", "tumbling-proc", "sliding-evt", "sliding-proc", "session-evt", "session-proc", "counting", "global"}
 
 type c18Cfg struct {
@@ -40,6 +67,7 @@ type c18Cfg struct {
 	Sink     string `json:"sink"`    // plain | panic | reenter-stats | reenter-addsink | block
 	Rows     int    `json:"rows_per_producer,omitempty"` // default 2
 	Buf0     bool   `json:"unbuffered_data_channel,omitempty"` // DataChannelSize 0 (accepted by the configuration): every Emit overflows unless the processor is waiting
+	RowPanic bool   `json:"panicking_row,omitempty"`           // the second row of every producer (and the first EmitSync) makes a user function panic
 }
 
 func (c c18Cfg) name() string {
@@ -49,6 +77,9 @@ func (c c18Cfg) name() string {
 	}
 	if c.Rows > 0 {
 		n += fmt.Sprintf("-rows%d", c.Rows)
+	}
+	if c.RowPanic {
+		n += "-rowpanic"
 	}
 	return n
 }
@@ -89,6 +120,13 @@ func c18Configs(tier string) []c18Cfg {
 		// every row (or window) fires: the window output buffer (2) fills behind the gated sink while Stop runs
 		out = append(out, c18Cfg{Kind: k, Strategy: "block", Threads: "PS", Sink: "gate", Rows: 5})
 	}
+	// a row whose evaluation panics inside a user function: later rows must still be processed and delivered, Stop
+	// must return without its grace timer, nothing escapes to the caller of Emit / EmitSync
+	for _, k := range []string{"direct", "direct-where", "analytic", "cep", "counting", "global"} {
+		out = append(out, c18Cfg{Kind: k, Strategy: "block", Threads: "P", Sink: "plain", Rows: 4, RowPanic: true}) // block: no row is dropped on the way in
+	}
+	out = append(out, c18Cfg{Kind: "direct", Strategy: "block", Threads: "E", Sink: "plain", RowPanic: true}, c18Cfg{Kind: "cep", Strategy: "block", Threads: "PS", Sink: "plain", Rows: 4, RowPanic: true},
+		c18Cfg{Kind: "direct-where", Strategy: "block", Threads: "PE", Sink: "plain", Rows: 4, RowPanic: true})
 	// (DataChannelSize 0 - an unbuffered input channel - is exercised by the free-running pass only: the scheduler
 	// models buffered channels and closed-only unbuffered ones, not rendezvous sends inside select)
 	if tier == "thorough" {
@@ -111,6 +149,7 @@ type c18Obs struct {
 	liveAfter      []sched.ThreadInfo
 	emitAfterStopSinks int
 	panicked       bool
+	syncResults    int
 }
 
 func c18Run(cfg c18Cfg) explore.RunFunc {
@@ -127,7 +166,12 @@ func c18Run(cfg c18Cfg) explore.RunFunc {
 				perf.OverflowConfig.ExpansionConfig.TriggerThreshold = 0.8
 			}
 			s := streamsql.New(streamsql.WithCustomPerformance(perf), streamsql.WithLogger(logger.NewDiscardLogger()))
-			if err := s.Execute(c18Queries[cfg.Kind]); err != nil {
+			sql := c18Queries[cfg.Kind]
+			if cfg.RowPanic {
+				c18RegisterBoom()
+				sql = c18RowPanicQueries[cfg.Kind]
+			}
+			if err := s.Execute(sql); err != nil {
 				o.execErr = err.Error()
 				return
 			}
@@ -187,7 +231,11 @@ func c18Run(cfg c18Cfg) explore.RunFunc {
 					sched.Go(func() {
 						defer wg.Done()
 						s.Emit(Row{"id": base + 1, "k": "a", "v": 1, "ts": 1000})
-						s.Emit(Row{"id": base + 2, "k": "a", "v": 2, "ts": 5000})
+						if cfg.RowPanic {
+							s.Emit(Row{"id": base + 2, "k": "a", "v": -1, "ts": 5000})
+						} else {
+							s.Emit(Row{"id": base + 2, "k": "a", "v": 2, "ts": 5000})
+						}
 						for j := 3; j <= cfg.Rows; j++ {
 							s.Emit(Row{"id": base + j, "k": "a", "v": j, "ts": 5000 + j})
 						}
@@ -218,7 +266,15 @@ func c18Run(cfg c18Cfg) explore.RunFunc {
 				case 'T':
 					sched.Go(func() { defer wg.Done(); s.TriggerWindow() })
 				case 'E':
-					sched.Go(func() { defer wg.Done(); s.EmitSync(Row{"id": 77, "k": "a", "v": 3, "ts": 1500}) })
+					sched.Go(func() {
+						defer wg.Done()
+						if cfg.RowPanic {
+							s.EmitSync(Row{"id": 76, "k": "a", "v": -1, "ts": 1400})
+						}
+						if r, err := s.EmitSync(Row{"id": 77, "k": "a", "v": 3, "ts": 1500}); err == nil && r != nil {
+							o.syncResults++
+						}
+					})
 				}
 			}
 			wg.Wait()
@@ -275,6 +331,19 @@ func c18Oracle(cfg c18Cfg, res *sched.Result, o *c18Obs) *explore.Failure {
 		want := 2*strings.Count(cfg.Threads, "P") + strings.Count(cfg.Threads, "E")
 		if o.sinkCalls < want {
 			return fail("rows-after-sink-panic-not-delivered", fmt.Sprintf("the sink panicked on its first batch and was invoked %d time(s) in all; %d rows were offered and every one forms its own batch", o.sinkCalls, want))
+		}
+	}
+	if cfg.RowPanic && !strings.Contains(cfg.Threads, "S") {
+		// every producer offers 4 rows of which one panics; each of the other three forms its own batch
+		want := 3 * strings.Count(cfg.Threads, "P")
+		if strings.Contains(cfg.Threads, "E") {
+			want++ // the EmitSync result is also handed to the sinks
+			if o.syncResults != 1 {
+				return fail("emitsync-after-panicking-row-no-result", "EmitSync of an ordinary row after a row whose evaluation panicked returned no result")
+			}
+		}
+		if o.sinkCalls < want {
+			return fail("rows-after-panicking-row-not-delivered", fmt.Sprintf("one row per producer made a user function panic; the sink was invoked %d time(s), %d ordinary rows were offered and every one forms its own batch", o.sinkCalls, want))
 		}
 	}
 	if o.sinkAfterStop > 0 {
